@@ -227,9 +227,12 @@ def c06_recorded (o : StepObs) : Bool :=
       (match o.entries.head? with
        | some e => e.principal == o.caller.principal && e.action == "info" && e.secret == "" && e.authorized
        | none => false)
-  | _ =>
+  | op =>
+    -- a request that must be refused for lack of permission leaves exactly one record saying so
+    if wellFormed op && !granted o.caller (actionOf op) (nameOf op) then
+      o.entries.length == 1 && o.entries.all (entryMatches o · false)
     -- disclosure of a value, a state change, or a denial: exactly one matching record
-    if o.res.disclosesValue || !stateEq o.post o.pre then
+    else if o.res.disclosesValue || !stateEq o.post o.pre then
       o.entries.length == 1 && o.entries.all (entryMatches o · true)
     else if o.res == .denied then
       o.entries.length == 1 && o.entries.all (entryMatches o · false)
